@@ -250,6 +250,7 @@ def correspondence(ctx, model_ok=True):
                    "distinct by canonical JSON",
            "samples": cases[:3], "model_runner": "Eval vm_compute in generated cases files (sharded coqc), comparison by Model/HistCheck.v",
            "failures": [], "broken": []}
+    out["all_cases"] = cases          # the driver runs the property oracle on these as well
     codes, broken = H.run_cases(ctx, ID, cases, gots)
     if codes is None:
         out["broken"] += broken
